@@ -83,3 +83,8 @@ claim("C09",
       "Every Any tree of <= 3 nodes over 40 boundary leaves; every update built by the harness's own lib0-v1 writer over all block kinds x all content kinds x origin/parent combinations x 1..2 clients (structure compared with the description via the hook dump, byte-identical v1 re-encoding, v1->v2->v1, equal effect of the v1 and v2 form on a document); every update / full state / state vector / snapshot of C01-style histories of all families; every Message / SyncMessage / AwarenessUpdate shape incl. Custom tags 4..255 and length classes, v1 and v2; the Yjs-generated byte literals of the repository's compatibility tests. One narrow known finding (YXmlHook content).",
       "structural equality via the verif hook dump; JSON-carried values (Embed/Format) compared after JSON normalisation; multi-key maps exempt from byte identity (hash order)",
       "DESIGN.md 4/C09")
+claim("C10",
+      "complete enumeration of bounded input spaces (every byte string up to a length; every single-point mutation of a corpus of every wire type) fed to every decoder entry point in crash-isolated workers with a counting, capping allocator",
+      "21 entry points (Update v1/v2, StateVector, Snapshot v1/v2, IdSet v1/v2, IdMap, Any binary and JSON, StickyIndex binary and JSON, MessageReader, AwarenessUpdate, merge_updates v1/v2, diff_updates v1/v2 as update and as state vector, encode_state_vector_from_update v1/v2). Inputs: EVERY byte string of length <= 2 (quick) / <= 3 (thorough, 16.8M); for every payload of a corpus of valid payloads of every wire type: every truncation, every single-byte replacement (position x 256 values), every position overwritten by each of 8 extreme var-int encodings, every prefix(A)+suffix(B) splice within a wire type; hand-made structural extremes (nesting 10^5, counts 2^32-1 without data, v2 run-length expansion). Per call: Ok or Err, no panic (overflow checks and debug assertions on), no abort / stack overflow (worker death is attributed to the journalled input), peak heap <= 256 B per input byte + 1 MiB, <= 2 s, strings valid UTF-8, an Ok value encodes again (v1, v2) without panic. One known finding (v2 run-length expansion, identified by input).",
+      "memory bound 256 B/byte + 1 MiB is this harness's reading of 'disproportionate'; the re-encoding step runs outside the memory oracle",
+      "DESIGN.md 4/C10")
